@@ -203,6 +203,12 @@ func buildL1(ctx sdk.Context, keys map[string]*storetypes.KVStoreKey, opts L1Opt
 		if err := ak.Params.Set(ctx, authtypes.DefaultParams()); err != nil {
 			panic(err)
 		}
+		// the module accounts every chain has from its first block (auth, distribution and staking create theirs in
+		// InitGenesis): without them a plain transfer to such an address would leave a plain account there, which no
+		// real L1 can experience. The ophost module's own account is created on first use, as on a real chain.
+		for _, name := range []string{authtypes.FeeCollectorName, distributiontypes.ModuleName, stakingtypes.BondedPoolName, stakingtypes.NotBondedPoolName} {
+			ak.GetModuleAccount(ctx, name)
+		}
 	}
 	blocked := map[string]bool{}
 	for acc := range maccPerms {
